@@ -435,6 +435,26 @@ def run(ctx, anchors=None):
     rets = [n for n in ctt.nodes() if n["k"] == "return"]
     ctx.inst(bool(call) and any(S.contains(r, call[0]) for r in rets), "R05.4", "tweak-check-result-returned", ctt.loc(), "the libsecp verdict is the return value")
 
+    # ---- R05.6 what is displayed is the BIP341 value: a 32-byte hash of the commitment check is rendered in the byte order in
+    # which it is hashed (HexStr / its own bytes), not through uint256::ToString / GetHex, which print it byte-reversed
+    ctx.rule("R05.6", "intermediate hashes of the commitment check are displayed in hashing byte order (no uint256::ToString / GetHex)")
+    nshown = 0
+    rev = []
+    for f in fb.funcs.values():
+        if f.rec != "TaprootCommitmentEnv" or f.body is None:
+            continue
+        for n in f.nodes():
+            if n["k"] == "mcall" and n.get("n") in ("ToString", "GetHex") and (n.get("mrec") or "") in ("base_blob", "uint256"):
+                nshown += 1
+                rev.append((f, n))
+            if n["k"] == "call" and n.get("n") == "HexStr":
+                nshown += 1
+    ctx.site(nshown)
+    ctx.inst(nshown > 0 and not rev, "R05.6", "hashes-shown-in-hashing-order", (rev[0][0].loc(rev[0][1]) if rev else stepper.loc()),
+             "the commitment environment renders its hashes with HexStr",
+             "%s prints `%s`: uint256::ToString reverses the bytes, so the logged running hash is the byte-reversal of the BIP341 value (and contradicts the state pane, which shows it in hashing order)" %
+             ((rev[0][0].name, astq.estr(rev[0][1])[:40]) if rev else ("", "")))
+
 
 def c02sub(t, a=("it", 0), b=("a", "i")):
     """replace term a by b everywhere"""
@@ -451,6 +471,7 @@ def size_pred_is(n):
 
 
 MUTANTS = [
+    dict(name="running-hash-shown-reversed", file="debugger/interpreter.cpp", find="        btc_taproot_logf(\"  - %d: k -> %s\\n\", m_i, HexStr(m_k).c_str());", replace="        btc_taproot_logf(\"  - %d: k -> %s\\n\", m_i, m_k.ToString().c_str());", expect=["R05.6:hashes-shown-in-hashing-order"]),
     dict(name="failed-commitment-released", file="debugger/interpreter.cpp", find="        case TaprootCommitmentEnv::State::Failed:\n            return false;", replace="        case TaprootCommitmentEnv::State::Failed:\n            delete env.tce;\n            env.tce = nullptr;\n            return false;", expect=["R05.3:failed-commitment-stays-failed"]),
     dict(name="commitment-skipped-for-empty-script", file="instance.cpp", find="    env->done &= successor_script.size() == 0 && !tce;\n", replace="    env->done &= successor_script.size() == 0;\n", expect=["R05.5:pending-commitment-not-done"]),
     dict(name="step-swaps-branch-operands", file="debugger/interpreter.cpp", find="            ss_branch << m_k << node;", replace="            ss_branch << node << m_k;", expect=["R05.1:fold:then"]),
